@@ -71,6 +71,7 @@ func (k *Keys) GetCursorPos() (x, y int) {
 		if len(match) == 0 && len(cursor) > 0 {
 			k.mutex.RLock()
 			k.buf = append(k.buf, cursor...)
+			k.mustWait = false
 			k.mutex.RUnlock()
 
 			continue
@@ -85,6 +86,7 @@ func (k *Keys) GetCursorPos() (x, y int) {
 		if _, remain := k.extractCursorPos(cursor); len(remain) > 0 {
 			k.mutex.RLock()
 			k.buf = append(k.buf, remain...)
+			k.mustWait = false
 			k.mutex.RUnlock()
 		}
 
